@@ -111,8 +111,8 @@ CHECKS = {
     },
     "C09": {
         "title": "operations complete: no deadlock, no lock left held",
-        "quick": [run("conc_struct_progress", "conc-plain", mode="struct", prop="C09", batches=300, stall_s=30, hang_is_violation=True, timeout=900, repeat=2),
-                  run("conc_lin_progress", "conc-plain", mode="lin", prop="C09", rounds=3000, hang_is_violation=True, timeout=900)],
+        "quick": [run("conc_struct_progress", "conc-plain", mode="struct", prop="C09", batches=300, stall_s=20, hang_is_violation=True, timeout=300, repeat=2),
+                  run("conc_lin_progress", "conc-plain", mode="lin", prop="C09", rounds=3000, hang_is_violation=True, timeout=240)],
         "thorough": [run("conc_struct_progress", "conc-plain", mode="struct", prop="C09", batches=25000, stall_s=60, hang_is_violation=True, timeout=3400, repeat=6),
                      run("conc_lin_progress", "conc-plain", mode="lin", prop="C09", rounds=300000, hang_is_violation=True, timeout=3400, repeat=2)],
         "parallel": {"quick": 1, "thorough": 2},
